@@ -4,12 +4,10 @@ import json, os
 V = os.path.dirname(os.path.dirname(os.path.abspath(__file__)))
 ids = [json.loads(l)['id'] for l in open(os.path.join(V, 'properties.jsonl'))]
 TECH = 'TLA+ specification checked by TLC (exhaustive small scope) + conformance: TLC-enumerated cases replayed on the real crate and recorded executions validated by TLC against the trace specification'
-CLAIMS = {
- 'C03': dict(
-   text='Dense.tla defines every Matrix operation as a mathematical operator. TLC (i) explores every editing history of depth 2-3 on all shapes 0..2(3) x 0..2(3) checking the shape invariant and the algebraic laws in every state, (ii) enumerates those histories as cases that are replayed on the real Matrix<Rat/f64/Complex/i64>, and (iii) validates, event by event, recorded executions of the real code over all shapes 0..8 exhaustively and random 50-200 step histories: each post-state/return value must equal the operator applied to the model state. Exact (integers); a single wrong element, shape or missing panic in any recorded step is rejected.',
-   note='Trusted: TLC, the Dense.tla operators (cross-checked by the algebraic laws), the harness projection of a Matrix to integers. Element values are small integers (exact in every element type); complex matrices are validated as real and imaginary parts. norm_p/norm_frob are judged against an independent evaluation in units of 4*r*c*eps (harness measurement).',
-   design='4 (C03)'),
-}
+import sys
+sys.path.insert(0, os.path.join(V, 'bin'))
+import props
+CLAIMS = props.CLAIMS
 checks = []
 for i in ids:
     if i in CLAIMS:
